@@ -66,9 +66,12 @@ fn one_voice(ctx: &mut Ctx, env: &Env, rng: &mut Rng, base: &Engine, rv: &RefVoi
     let d = |extra: J| J::obj().set("voice", descr).set("labels", J::Arr(to_strings(&labels).into_iter().take(4).map(J::Str).collect())).set("observed", extra);
     let mut prev: Option<(f64, Vec<bool>, Run)> = None;
     let mut flips = 0usize;
+    // (voicing does not depend on the pitch shift: half of the cases run transposed)
+    let half_tone = if rng.chance(0.5) { rng.uniform(-12.0, 12.0) } else { 0.0 };
     for th in ths {
         let mut e = base.clone();
         e.condition.set_msd_threshold(1, th);
+        e.condition.set_additional_half_tone(half_tone);
         let run = match trajectories(&e, labels.clone()) {
             Ok(r) => r,
             Err(er) => {
@@ -368,13 +371,33 @@ pub fn run(ctx: &mut Ctx) {
         let mut e = base.clone();
         let th = *rng.pick(&[0.25, 0.5, 0.6, 0.75, 0.9, 0.01, 0.0]);
         e.condition.set_msd_threshold(1, th);
-        let run = match run_with_hooks(&e, labels.clone()) {
+        // which frames are unvoiced is decided without a pitch shift; the rendering is checked
+        // with one in half of the cases (an unvoiced frame stays noise whatever the shift)
+        let pattern = match run_with_hooks(&e, labels.clone()) {
             Ok(r) => r,
             Err(er) => {
                 ctx.violation("synthesize-err", J::from(format!("{}", er)));
                 return;
             }
         };
+        let half_tone = if rng.chance(0.5) { *rng.pick(&[3.0, -7.5, 0.25, 12.0]) } else { 0.0 };
+        e.condition.set_additional_half_tone(half_tone);
+        let mut run = match run_with_hooks(&e, labels.clone()) {
+            Ok(r) => r,
+            Err(er) => {
+                ctx.violation("synthesize-err", J::from(format!("{}", er)));
+                return;
+            }
+        };
+        if run.lf0.len() != pattern.lf0.len() {
+            ctx.violation("half-tone-changed-the-number-of-frames", J::obj().set("voice", o.describe()).set("half_tone", half_tone));
+            return;
+        }
+        for (t, f) in run.lf0.iter_mut().enumerate() {
+            if pattern.lf0[t][0] == NODATA {
+                f[0] = NODATA;
+            }
+        }
         let _ = rv;
         let fp = e.condition.get_fperiod();
         let rate = e.condition.get_sampling_frequency();
@@ -398,7 +421,7 @@ pub fn run(ctx: &mut Ctx) {
                     if x.to_bits() != noise[k].to_bits() {
                         ctx.violation(
                             "unvoiced-frame-is-not-the-noise-sequence",
-                            J::obj().set("voice", o.describe()).set("frame", t).set("got", *x).set("expected", noise[k]).set("threshold", th),
+                            J::obj().set("voice", o.describe()).set("frame", t).set("got", *x).set("expected", noise[k]).set("threshold", th).set("half_tone", half_tone),
                         );
                         return;
                     }
